@@ -122,6 +122,18 @@ def build(rng, tier):
             rn = "runp" if j == 1 else "run"      # one history in three: the Lean side is the physical-index engine model (aggregation through the hash indices: Props/C04Phys.lean, C13PhysAgg.lean)
             ops = [f"eng new {inst} {pid}"] + engcheck.load_ops(inst, inp) + [f"eng {rn} {inst}", f"eng dump {inst}", f"eng {rn} {inst}", f"eng dump {inst}"]
             cases.append(engcheck.Case(pid, inst, ops, {"inp": inp, "marks": ["same"], "kind": "agg-rerun", "was": "F2"}))
+    # the same under ascent_par!: run; run; run on a program value (the parallel update_indices must rebuild the multiset-like concurrent indices from scratch,
+    # or multiplicity-sensitive aggregates double with every run)
+    for i, p in enumerate(engcheck.make_programs(rng.fork("c13aggpar"), 4 if tier == "quick" else 16, genf=gen.gen_agg_program, filt=eng.stratifiable)):
+        pid = f"hap{i}"
+        progs[pid] = p
+        mods.append((pid, eng.rs_module(pid, p, macro="ascent_par")))
+        for j in range(3):
+            r2 = rng.fork(f"{pid}h{j}")
+            inp = gen.nodup_input(r2, p, max_rows=6)
+            inst = f"{pid}_{j}"
+            ops = [f"eng new {inst} {pid} par {r2.choice([1, 2, 4, 8])}"] + engcheck.load_ops(inst, inp) + [f"eng run {inst}", f"eng dump {inst}", f"eng run {inst}", f"eng dump {inst}", f"eng run {inst}", f"eng dump {inst}"]
+            cases.append(engcheck.Case(pid, inst, ops, {"inp": inp, "marks": ["same", "same"], "kind": "agg-rerun-par"}))
     # witness of F2 (fixed by 8b2e261; must pass)
     w = {"rels": [{"arity": 2}, {"arity": 1}, {"arity": 2}],
          "rules": [{"heads": [(2, [("var", 0), ("var", 21)])], "body": [("cl", 1, [("v", 0)], []), ("agg", [21], "count", [], 0, [("k", ("var", 0)), "_"])]}]}
